@@ -186,4 +186,86 @@ example : (run o0 [.ann (ebgp 1 65001 10 101 100 5 7), .ann (ebgp 2 65002 11 102
 example : (run o0 [.ann (ebgp 2 65002 11 102 100 5 3), .ann (ebgp 1 65001 10 101 100 5 7)]).map (·.id)
     = [2, 1] := by decide
 
+/-! ### the equal-cost multipath set -/
+
+theorem mem_takeWhile_holds {α : Type} (p : α → Bool) : ∀ (l : List α) (y : α),
+    y ∈ l.takeWhile p → p y = true := by
+  intro l
+  induction l with
+  | nil => intro y hy; cases hy
+  | cons x xs ih =>
+    intro y hy
+    simp only [List.takeWhile_cons] at hy
+    cases hx : p x
+    · simp [hx] at hy
+    · simp only [hx, if_true, List.mem_cons] at hy
+      rcases hy with rfl | hy
+      · exact hx
+      · exact ih y hy
+
+/-- **multipath_spec.** With a reachable best path the multipath set is the best path followed by
+    the LONGEST run of paths that are reachable, as LLGR-stale as the best path and equal to it
+    under `Path.Compare`: it is a prefix of the sorted list, every member qualifies, and the
+    first path left out (if any) does not. With an unreachable best path it is empty. -/
+theorem multipath_spec (best : Cand) (rest : List Cand) (h : best.nhInvalid = false) :
+    ∃ tail, multipath (best :: rest) = best :: (multipath (best :: rest)).tail ∧
+      multipath (best :: rest) ++ tail = best :: rest ∧
+      (∀ y ∈ (multipath (best :: rest)).tail, equalCost best y = true) ∧
+      (∀ y, tail.head? = some y → equalCost best y = false) := by
+  refine ⟨rest.dropWhile (equalCost best), ?_, ?_, ?_, ?_⟩
+  · simp [multipath, h]
+  · simp [multipath, h, List.takeWhile_append_dropWhile]
+  · intro y hy
+    simp only [multipath, h, Bool.false_eq_true, if_false, List.tail_cons] at hy
+    exact mem_takeWhile_holds _ _ _ hy
+  · intro y hy
+    cases hd : rest.dropWhile (equalCost best) with
+    | nil => rw [hd] at hy; cases hy
+    | cons z zs =>
+      rw [hd] at hy
+      simp only [List.head?_cons, Option.some.injEq] at hy
+      subst hy
+      have := List.head_dropWhile_not (equalCost best) (l := rest) (by rw [hd]; simp)
+      simpa [hd] using this
+
+theorem multipath_unreachable (best : Cand) (rest : List Cand) (h : best.nhInvalid = true) :
+    multipath (best :: rest) = [] := by simp [multipath, h]
+
+/-- what "equal cost" means step by step: a member of the multipath set ties with the best path
+    on local origination, iBGP-ness, LOCAL_PREF, AS_PATH length, ORIGIN and MED -/
+theorem multipath_members_tie (best y : Cand) (h : equalCost best y = true) :
+    y.nhInvalid = false ∧ y.stale = best.stale ∧ y.isLocal = best.isLocal ∧ y.isIBGP = best.isIBGP ∧
+      y.getLocalPref = best.getLocalPref ∧ asPathLen y = asPathLen best ∧
+      y.origin.getD 0 = best.origin.getD 0 ∧ y.getMed = best.getMed := by
+  simp only [equalCost, Bool.and_eq_true, Bool.not_eq_eq_eq_not, Bool.not_true, beq_iff_eq] at h
+  obtain ⟨⟨h1, h2⟩, h3⟩ := h
+  refine ⟨h1, h2, ?_⟩
+  unfold pathCompare at h3
+  cases hl1 : y.isLocal <;> cases hl2 : best.isLocal <;> cases hi1 : y.isIBGP <;> cases hi2 : best.isIBGP <;>
+    simp [hl1, hl2, hi1, hi2] at h3 ⊢ <;>
+    (by_cases a1 : y.getLocalPref = best.getLocalPref
+     · by_cases a2 : asPathLen y = asPathLen best
+       · by_cases a3 : y.origin.getD 0 = best.origin.getD 0
+         · simp [a1, a2, a3] at h3 ⊢; omega
+         · simp [a1, a2, a3] at h3; omega
+       · simp [a1, a2] at h3; omega
+     · simp [a1] at h3; omega)
+
+/-- the pinned tree located the end of the run with a binary search over a predicate that is not
+    monotone along the sorted list (LLGR-stale paths sort last whatever their attributes, and
+    `Path.Compare` ignores staleness): a reachable history whose multipath set contained a path
+    with a LOWER LOCAL_PREF than the best path, and two LLGR-stale ones. Fixed (`fix:` commit
+    "the multipath set is the run of equal-cost paths at the head of the list"). -/
+def mpc (id addr lp : Nat) (stale : Bool) : Cand :=
+  { (ebgp id 65001 addr addr lp 5 (1000 + id)) with stale := stale }
+def mpHist : List Op :=
+  [.ann (mpc 1 1 200 false), .ann (mpc 2 2 100 false), .ann (mpc 3 3 200 true), .ann (mpc 4 4 200 true),
+   .ann (mpc 5 5 100 true)]
+theorem multipathOld_counterexample :
+    (run o0 mpHist).map (·.id) = [1, 2, 3, 4, 5] ∧
+    (multipathOld (run o0 mpHist)).map (·.id) = [1, 2, 3, 4] ∧
+    (multipath (run o0 mpHist)).map (·.id) = [1] := by decide
+
+example : equalCost (mpc 1 1 200 false) (mpc 6 6 200 false) = true := by decide
+
 end C03
